@@ -6,6 +6,7 @@
 package simrt
 
 import (
+	"context"
 	"reflect"
 	"runtime"
 	"sync"
@@ -264,3 +265,12 @@ func CurSpawnSeq() uint64            { return 0 }
 func CurID() int                     { return 0 }
 func SleepCount(name string) int     { return 0 }
 func EnvSleep(d time.Duration)       { time.Sleep(d) }
+
+type Map = sync.Map
+
+func WithTimeout(parent context.Context, d time.Duration) (context.Context, context.CancelFunc) {
+	return context.WithTimeout(parent, d)
+}
+func WithDeadline(parent context.Context, t time.Time) (context.Context, context.CancelFunc) {
+	return context.WithDeadline(parent, t)
+}
